@@ -30,6 +30,7 @@ def run(model, rep, tier):
     # until nothing is ready or running (the obligations of the -j scheduling loop, shared with C06)
     from . import c06
     c06.r1_bounded_start(ctx, rep, R='C07.R9')
+    r10_report_only_after_completed_run(ctx, rep)
     rep.units['cfg'] = ctx.cfg_stats
 
 
@@ -798,3 +799,40 @@ def _after_header(g, hp, nid):
     if not loops:
         return False
     return loops[-1] in dom.get(nid, ()) and nid not in g.loop_nodes(loops[-1])
+
+
+def r10_report_only_after_completed_run(ctx, rep, R='C07.R10'):
+    """'nothing partial trusted': the child's report is a statement that its run completed.  It is
+    written by SubProcess.report, i.e. by the report hook loop of Runner.run -- that loop must not
+    be reachable when the test phase was left by an exception (a child dying of SystemExit /
+    KeyboardInterrupt / MemoryError in a layer hook must stay silent, so that the parent records
+    'Could not communicate')."""
+    rep.rule(R, 'a child reports only a completed run: in Runner.run the report hooks (SubProcess.report '
+             'writes the wire report) are not reachable from an exceptional exit of the test phase')
+    from sa.cfg import AnyCall, build_cfg
+    from .common import inlined
+    fi = ctx.model.func('runner.Runner.run')
+
+    def quiet(node):
+        return 'run_tests' not in norm(node)
+    node = inlined(ctx, fi)
+    g = build_cfg(node, ctx.hier, AnyCall(quiet_cleanup=True, quiet=quiet), fi.module,
+                  noreturn=ctx.noreturn_pred(fi), name=fi.qualname)
+    rt = nodes_calling(g, lambda c: dotted(c.func) == 'self.run_tests')
+    rp = nodes_calling(g, lambda c: isinstance(c.func, ast.Attribute) and c.func.attr == 'report'
+                       and not c.args)
+    rep.floor(R, len(rp), 1, 'report hook call sites in Runner.run')
+    ok = bool(rt) and bool(rp)
+    path = None
+    if ok:
+        exc_succ = [d for x in rt for d, k in g.succ[x] if k == 'exc']
+        r = g.reach(exc_succ, include_start=True)
+        hit = [x for x in rp if x in r]
+        ok = not hit
+        if hit:
+            path = g.describe_path(g.path(exc_succ, hit[0], include_start=True) or [])
+    rep.check(ok, R, 'feature.report() is not reachable after run_tests() raised',
+              'the report hooks also run when the test phase was aborted by an exception: a child that '
+              'dies of SystemExit / KeyboardInterrupt / MemoryError in a layer hook still sends a '
+              'complete, well-formed report and the parent trusts it (no error for the layer)',
+              key='report-after-abort', func=fi.qualname, where=ctx.where(fi, fi.node), path=path)
